@@ -952,10 +952,19 @@ Lemma d_close_waits evs c sb :
   \/ (exists k, In k (d_cans s) /\ k_task k = s_task sb /\ k_at k < l_e c)
   \/ (~ In (s_task sb) (map r_task (d_runs s) ++ map k_task (d_cans s))
       /\ d_disp s = DExit /\ s_b sb < l_e c /\ l_b c = d_cb s
-      /\ (In (s_task sb) (d_queue s) \/ In (s_task sb) (d_lost s))).
+      /\ (In (s_task sb) (d_queue s) \/ In (s_task sb) (d_lost s))
+      /\ (forall x, In x (d_subs s) -> s_e sb < s_b x ->
+            ~ In (s_task x) (map r_task (d_runs s) ++ map k_task (d_cans s)))).
 Proof.
   intros Hc Hin Hr s. pose proof (inv_run evs) as HI. fold s in HI. pose proof (j_close _ _ HI) as HC.
   unfold close_inv in HC. fold s in Hc, Hin.
+  assert (Hlater : In (s_task sb) (d_queue s) \/ In (s_task sb) (d_lost s) ->
+            forall x, In x (d_subs s) -> s_e sb < s_b x ->
+            ~ In (s_task x) (map r_task (d_runs s) ++ map k_task (d_cans s))).
+  { intros Hw x Hx Hlt Ht.
+    assert (X : s_e x < s_e sb).
+    { apply (j_fifo1 _ _ HI x sb Hx Hin); rewrite !in_app_iff in *; tauto. }
+    destruct (j_subs _ _ HI x Hx) as (_ & Y & _). lia. }
   destruct (d_close s).
   - destruct HC as (_ & _ & _ & E). rewrite E in Hc. destruct Hc.
   - destruct HC as (_ & _ & _ & E & _). rewrite E in Hc. destruct Hc.
@@ -998,11 +1007,16 @@ Proof.
   - unfold ok_mailbox, d_hist. cbn [h_cfg]. destruct kind_dp as [E|E]; rewrite E; reflexivity.
   - intros c Hc _ sb Hin Hr.
     assert (Er : s_res sb = ROk) by (destruct (s_res sb); try discriminate; reflexivity).
-    destruct (d_close_waits evs c sb Hc Hin Er) as [(r & A & B & C)|[(k & A & B & C)|(Hnt & Hd & Hsb & Hcb & Hwhere)]].
+    destruct (d_close_waits evs c sb Hc Hin Er) as [(r & A & B & C)|[(k & A & B & C)|(Hnt & Hd & Hsb & Hcb & Hwhere & Hlater)]].
     + left. apply task_code_zero. eapply terminal_before_run; eauto.
     + left. apply task_code_zero. eapply terminal_before_can; eauto.
     + fold s in Hnt, Hd, Hcb, Hwhere. unfold task_code.
       rewrite (terminal_before_false (d_hist s) _ _ Hnt), (has_terminal_false (d_hist s) _ Hnt).
+      assert (Hnl : no_later_terminal (d_hist s) sb = true).
+      { unfold no_later_terminal. apply forallb_forall. intros x Hx. apply negb_true_iff.
+        destruct (is_ok (s_res x)); [|reflexivity]. destruct (N.ltb_spec (s_e sb) (s_b x)) as [Hl|Hl]; [|reflexivity].
+        cbn [andb]. apply has_terminal_false. fold s in Hlater. apply (Hlater x Hx Hl). }
+      rewrite Hnl.
       unfold Model.WorkQueue_dpool.d_hist. cbn [h_cfg h_cans h_clos]. unfold dcode.
       pose proof (j_lost _ _ HI) as Hlost. pose proof (j_exit_b _ _ HI) as Heb. pose proof (j_exit_p _ _ HI) as Hep.
       assert (Hib : is_batch = kind_eqb (c_kind cf) KBatch) by reflexivity.
